@@ -1608,6 +1608,21 @@ def directed_cases() -> List[dict]:
                                        ["Tc", [N(1)]], ["Tj", [S("ABC")]], ["ET", []]]))
     c["name"] = "type3-fontmatrix"
     out.append(c)
+    # colour-space resources: a name is looked up in the resources of the content being interpreted
+    show = [["BT", []], ["Tf", [["/", "F1"], N(10)]], ["Tj", [S("A")]], ["ET", []]]
+    c = json.loads(json.dumps(base))
+    c["res"]["cspaces"] = {"CS1": ["DeviceCMYK", 4, "alias"], "Sp": ["Separation", 1, "sep"], "Cs2": ["ICCBased", 3, "icc"]}
+    c["forms"] = [{"matrix": None, "bbox": [0, 0, 100, 100], "res": {"fonts": {"F1": 0}, "xobjs": {}, "cspaces": {}},
+                   "prog": json.loads(json.dumps([["cs", [["/", "CS1"]]]] + show))}]
+    c["res"]["xobjs"] = {"X0": 0}
+    c["prog"] = json.loads(json.dumps([["g", [N(F(1, 2))]], ["Do", [["/", "X0"]]], ["cs", [["/", "CS1"]]]] + show +
+                                      [["cs", [["/", "Sp"]]]] + show + [["cs", [["/", "Cs2"]]], ["sc", [N(1), N(0), N(F(1, 4))]]] + show +
+                                      [["cs", [["/", "Nope"]]]] + show))
+    c["more_pages"] = [{"res": {"fonts": {"F1": 0}, "xobjs": {}, "cspaces": {"Sp": ["DeviceRGB", 3, "alias"]}},
+                        "prog": json.loads(json.dumps([["Tc", []], ["cs", [["/", "CS1"]]]] + show + [["cs", [["/", "Sp"]]]] + show))}]
+    c["trail"] = [N(7)]
+    c["name"] = "colourspace-resources-per-content"
+    out.append(c)
     return out
 
 
